@@ -52,6 +52,7 @@ func Judge(out *lib.Out, sc *Scenario, kind string, oracles func(*Run) []string,
 			msgs = append(msgs, fmt.Sprintf("step %d of task %d panicked: %s", i, st.Tid, st.Panic))
 		}
 	}
+	msgs = append(msgs, run.W.ConfigAnomalies...)
 	msgs = append(msgs, oracles(run)...)
 	for _, a := range run.W.Rec.Anomalies {
 		if len(msgs) < 10 {
